@@ -234,6 +234,31 @@ def case_array(ctx, rng):
         ref.insert(axis, sr.BlockIndex({ident: 1}, dual=dual_def))
         forms = {"method": lambda: x.expand_dims(ax_arg), "function": lambda: sr.expand_dims(x, ax_arg), "autoray": lambda: ar.do("expand_dims", x, ax_arg)}
         judge_forms(ctx, op, forms, ref, exp, dict(wit, axis=ax_arg), charge=x.charge, nontrivial=nt and (nt, axis))
+        # several axes at once (numpy semantics), positions given with mixed signs: either the
+        # block form of numpy.expand_dims or a refusal
+        if rng.random() < 0.35:
+            k2 = rng.randint(2, 3)
+            final = sorted(rng.sample(range(x.ndim + k2), k2))
+            axt = [p_ - (x.ndim + k2) if rng.random() < 0.5 else p_ for p_ in final]
+            rng.shuffle(axt)
+            axt = tuple(axt) if rng.random() < 0.7 else list(axt)
+            exp_t = np.expand_dims(d, tuple(axt))
+            for fname, fn_ in (("method", lambda: x.expand_dims(axt)), ("function", lambda: sr.expand_dims(x, axt)), ("autoray", lambda: ar.do("expand_dims", x, axt))):
+                o_ = ctx.call(fn_)
+                ctx.evaluated()
+                ctx.count("form", fname)
+                ctx.count("feature", "expand_dims-several-axes")
+                w_ = dict(wit, axis=repr(axt), form=fname)
+                if not o_.ok:
+                    if o_.refusal or isinstance(o_.exc, TypeError):
+                        ctx.count("refusal", f"expand_dims-several-axes:{o_.excname}")
+                    else:
+                        ctx.violation(f"expand_dims-raises-{o_.excname}", repr(o_.exc), w_)
+                    continue
+                y_ = o_.value
+                if not is_array(y_) or embed(y_).shape != exp_t.shape or not np.array_equal(embed(y_), exp_t) or any(y_.indices[p_].size_total != 1 for p_ in final):
+                    ctx.violation("expand_dims-several-axes", f"expand_dims({axt!r}) via {fname}: result of shape {embed(y_).shape if is_array(y_) else type(y_)} is not the block form of numpy.expand_dims (shape {exp_t.shape})", w_)
+                    break
         # with explicit charge and direction (method only)
         c = rng.choice(gen.POOL[sym])
         dl = rng.random() < 0.5
